@@ -175,9 +175,9 @@ ASSUMPTIONS = ["the user's state propagator and validity checker are determinist
                "bounded: |steps| <= 4, at most 3 control samples; control dimension <= 64", "RNG contract uniformReal in [a,b)",
                "planner fragments: motions/states/controls are references with ghost content ids; the goal, samplers and propagators are arbitrary"]
 TRUSTED = ["extraction rewrite tables of units/C02.py", "stubs/harness code in units/C02/*.c", "CBMC 6.11"]
-NOT_COVERED = ["control planners other than RRT (loop body + path construction), SST (solution record + path construction) and PDST (flag logic): EST, KPIECE, Syclop, LTL; their PathControl assembly and approximate marking",
+NOT_COVERED = ["control planners other than RRT (loop body + path construction), SST (solution record + path construction), PDST (flag logic, findDurationAndAncestor) and Syclop (solution record + report): EST, KPIECE, LTL; their PathControl assembly and approximate marking",
                "control::RRT: the start-state loop and the contracts assumed for DirectedControlSampler::sampleTo and the vector overload of propagateWhileValid (they RECORD what they propagated; that the record is true is the C02 unit on propagateWhileValid/getBestControl for the scalar overload only)",
-               "PathControl::check/interpolate"]
+               "PathControl::asGeometric / append / random; in check() and interpolate() the rounding floor(0.5 + duration / stepSize) is behind a recording stub (that both functions use the SAME rounding is what is proved)"]
 
 MISC_CPPS = ['src/ompl/control/src/SpaceInformation.cpp', 'src/ompl/control/src/SimpleDirectedControlSampler.cpp', 'src/ompl/control/spaces/src/RealVectorControlSpace.cpp']
 NATIVE = [
